@@ -358,6 +358,13 @@ fn run17(cap: usize, toks: &[&str], wk: &mut Wakers, out: &mut String, mut tok_e
                 handles.push(c);
                 out.push('-');
             }
+            b'h' => {
+                // drop the newest cloned handle (the one the ops went through); the first handle always stays
+                if handles.len() > 1 {
+                    drop(handles.pop());
+                }
+                out.push('-');
+            }
             _ => panic!("bad op {t}"),
         }
         wk.wakes_since(&mut wakes);
